@@ -2,7 +2,7 @@
    re-extracted from the code on this run (gen/Params_C05.v).  Every theorem quantifies over ALL
    schedules (lists of (thread, choice); choice 1 = spurious weak-CAS failure), any number of threads,
    any capacity, any scripts. *)
-From MV Require Import C05.Model C05.ProofsSowr C05.ProofsRing C05.ProofsTs C05.ProofsTsInv gen.Params_C05.
+From MV Require Import C05.Model C05.ProofsSowr C05.ProofsRing C05.ProofsTs C05.ProofsTsInv C05.ProofsTsVis gen.Params_C05.
 
 (* side condition on the code's memory orders (ts pool): acquire load / release store of free_idx,
    acquire test-and-set / release clear of the free spinlock *)
@@ -87,3 +87,46 @@ Theorem ts_stale_null_refuted : exists sched,
   t_badnull s <> 0%nat /\ (t_A s - t_F s < 4 - 1)%nat.
 Proof. exists stale_sched. vm_compute. repeat split; try reflexivity; try discriminate. lia. Qed.
 Print Assumptions ts_stale_null_refuted.
+
+(* ---- visibility (view discipline of DESIGN.md 4.2) ---- *)
+
+(* ts pool, one allocator thread, any number of freers: with the memory orders found in the code every plain
+   read of a ptrs[] entry by the allocator and every lock-protected write of one is covered by the thread's
+   view (the ghost counter of uncovered accesses stays 0), for every schedule *)
+Theorem ts_reads_covered : forall cap n scripts a sched,
+  (0 < cap)%nat -> single_allocator a n scripts ->
+  t_uncov (ts_run code_params cap n scripts sched) = 0%nat.
+Proof.
+  intros cap n scripts a sched.
+  exact (ts_reads_covered_all code_params cap n scripts a sched c05_memory_orders_sufficient).
+Qed.
+Print Assumptions ts_reads_covered.
+
+(* many allocators: visibility is REFUTED even outside the known class (no racy window, no double hand-out):
+   an allocator that never synchronised reads a ptrs[] entry written by a free, because cached_free_pos is
+   shared without synchronisation.  full statement (refuted):
+     forall sched, in_known_class scripts n s = false -> t_uncov s = 0 *)
+Theorem ts_multi_visibility_refuted : exists sched,
+  let s := ts_run code_params 4 2 vis_scripts sched in
+  in_known_class vis_scripts 2 s = false /\ t_dups s = 0%nat /\ t_uncov s <> 0%nat.
+Proof. exists vis_sched. vm_compute. repeat split; try reflexivity. discriminate. Qed.
+Print Assumptions ts_multi_visibility_refuted.
+
+(* sowr pool: its plain fields alloc_idx / cached_free_pos are touched by the allocator thread only (nothing
+   plain crosses threads inside the pool; free_idx is atomic and relaxed) *)
+Theorem sowr_plain_fields_private : forall cap base a f n scripts sched,
+  sowr_geometry cap base -> sowr_usage a f scripts ->
+  forall t, t <> a -> touches_private (s_thr (sowr_run code_params cap base n scripts sched) t) = false.
+Proof. exact (sowr_plain_fields_private_all code_params). Qed.
+Print Assumptions sowr_plain_fields_private.
+
+(* ring pool: the plain cursor and the plain in_use = 1 store are touched by at most one thread at a time,
+   under the write spinlock (threadsafe_alloc) or by the single allocating thread *)
+Theorem ring_cursor_exclusive : forall cap n locked a scripts sched,
+  ring_usage a locked scripts ->
+  let s := ring_run code_params cap n locked scripts sched in
+  (forall t u, in_body (r_pc (r_thr s t)) = true -> in_body (r_pc (r_thr s u)) = true -> t = u) /\
+  (r_locked s = true -> forall t, in_body (r_pc (r_thr s t)) = true -> r_lock s = true) /\
+  (r_locked s = false -> forall t, in_body (r_pc (r_thr s t)) = true -> t = a).
+Proof. exact (ring_cursor_exclusive_all code_params). Qed.
+Print Assumptions ring_cursor_exclusive.
